@@ -357,7 +357,8 @@ class LoadedWorld:
         if not fresh and key in self._tcache:
             return self._tcache[key]
         obj = eval(tsrc(t, mod), self.modules[mod].__dict__)
-        self._tcache[key] = obj
+        if not fresh:
+            self._tcache[key] = obj  # (a fresh annotation belongs to its caller alone, and dies with the call)
         return obj
 
     def call(self, mod: str | None, depth: int, fn, *args, **kwargs):
